@@ -1805,6 +1805,8 @@ class Engine:
         gen = self.generator_target(it, st)
         if gen is not None:
             return self.inline_generator(stmt, st, gen)
+        if isinstance(it, ast.Tuple):
+            return self.unrolled_for(stmt, st)
         ordinal, spec = self.loop_spec(stmt)
         exc0 = []
         outs = []
@@ -1872,6 +1874,27 @@ class Engine:
 
             outs.extend(self.cut_loop(stmt, s, ordinal, spec, head, advance, stmt.body, hidden=[hid]))
         return outs + exc0
+
+    def unrolled_for(self, stmt, st):
+        """for x in (a, b, ...): a display of fixed length is unrolled (no invariant needed)"""
+        exc = []
+        outs = []
+        for s0, items in self.ev_seq(stmt.iter.elts, st, exc):
+            pending = [s0]
+            for item in items:
+                nxt = []
+                for s1 in pending:
+                    for s2 in self.assign_target(stmt.target, item, s1, exc):
+                        for oc in self.exec_block(stmt.body, s2):
+                            if oc.kind in ("normal", "continue"):
+                                nxt.append(oc.st)
+                            elif oc.kind == "break":
+                                outs.append(Outcome("normal", oc.st))
+                            else:
+                                outs.append(oc)
+                pending = nxt
+            outs.extend(Outcome("normal", s1) for s1 in pending)
+        return outs + exc
 
     def targets_of(self, node):
         names = set()
